@@ -252,4 +252,79 @@ theorem validate_args (a : ValArgs) (tty : Bool) (loads : List (List Bool)) (std
   · intro h
     simp [validate, h]
 
+/-! ## yaml-set -/
+
+theorem setRun_result (a : SetArgs) (d : Node) (g : Gather) (segs : Option (List PSeg)) (o : SetOut)
+    (h : setRun a d g segs = some o) :
+    (o.exit = 0 →
+        ((a.src = .none ∧ o.written = some (setDest a, d)) ∨
+          ∃ op d', setOp a g segs = some op ∧ op.apply d = .ok d' ∧ o.written = some (setDest a, d'))
+        ∧ o.backup = (if a.backup then some d else none))
+    ∧ (o.exit ≠ 0 → o.written = none ∧ o.backup = none ∧ (o.exit = 1 ∨ o.exit = 20)) := by
+  unfold setRun at h
+  simp only [] at h
+  repeat' split at h
+  all_goals first
+    | (cases h; done)
+    | (cases h; simp [SetOut.fail]; done)
+    | (cases h; simp_all; done)
+    | skip
+
+
+theorem set_result (ev : Node → Gather) (a : SetArgs) (tty : Bool) (ld : Option (Option Node))
+    (segs : Option (List PSeg)) (o : SetOut) (h : set ev a tty ld segs = some o) :
+    (o.exit = 0 →
+        ∃ d, ld = some (some d) ∧ setErrors a tty = [] ∧
+          ((a.src = .none ∧ o.written = some (setDest a, d)) ∨
+            ∃ op d', setOp a (ev d) segs = some op ∧ op.apply d = .ok d' ∧ o.written = some (setDest a, d'))
+          ∧ o.backup = (if a.backup then some d else none))
+    ∧ (o.exit ≠ 0 → o.written = none ∧ o.backup = none ∧ (o.exit = 1 ∨ o.exit = 20)) := by
+  unfold set at h
+  split at h
+  · cases h; simp [SetOut.fail]
+  · rename_i hv
+    split at h
+    · cases h; simp [SetOut.fail]
+    · cases h
+    · rename_i d
+      obtain ⟨h1, h2⟩ := setRun_result a d (ev d) segs o h
+      refine ⟨fun h0 => ⟨d, rfl, ?_, h1 h0⟩, h2⟩
+      simpa using hv
+
+theorem inStream_iff (file : Option FileArg) (nostdin tty : Bool) :
+    inStream file nostdin tty = true ↔ file = some .dash ∨ (file = none ∧ nostdin = false ∧ tty = false) := by
+  cases file with
+  | none => cases nostdin <;> cases tty <;> simp [inStream]
+  | some f => cases f <;> simp [inStream]
+
+theorem set_args (ev : Node → Gather) (a : SetArgs) (tty : Bool) (ld : Option (Option Node))
+    (segs : Option (List PSeg)) :
+    (setErrors a tty ≠ [] ↔
+        (a.file = none ∧ (a.nostdin = true ∨ tty = true))
+        ∨ (a.src.truthy = false ∧ a.anchor = .unset ∧ a.tag = false)
+        ∨ (isStdinSrc a.src = true ∧ inStream a.file a.nostdin tty = true)
+        ∨ (a.anchor = .name ∧ a.src ≠ .aliasof ∧ a.src ≠ .mergekey)
+        ∨ (a.backup = true ∧ inStream a.file a.nostdin tty = true)
+        ∨ (savetoSet a = true ∧ a.saveto = some a.change)
+        ∨ a.priv = .bad ∨ a.pub = .bad ∨ a.randomFromShort = true)
+    ∧ (setErrors a tty ≠ [] → set ev a tty ld segs = some (.fail 1)) := by
+  constructor
+  · unfold setErrors
+    simp only [ne_eq, List.append_eq_nil_iff, when_eq_nil, Classical.not_and_iff_not_or_not, Bool.not_eq_false]
+    have e1 : (!(a.file.isSome || inStream a.file a.nostdin tty)) = true ↔
+        (a.file = none ∧ (a.nostdin = true ∨ tty = true)) := by
+      cases a.file with
+      | none => cases a.nostdin <;> cases tty <;> simp [inStream]
+      | some f => simp
+    have e2 : (!(a.src.truthy || a.anchor != .unset || a.tag)) = true ↔
+        (a.src.truthy = false ∧ a.anchor = .unset ∧ a.tag = false) := by
+      cases a.src.truthy <;> cases a.anchor <;> cases a.tag <;> simp
+    have e4 : (a.anchor == .name && !(a.src == .aliasof || a.src == .mergekey)) = true ↔
+        (a.anchor = .name ∧ a.src ≠ .aliasof ∧ a.src ≠ .mergekey) := by
+      simp
+    rw [e1, e2, e4]
+    simp [or_assoc]
+  · intro h
+    simp [set, h]
+
 end Ypv.Cli.Lemmas
